@@ -313,7 +313,7 @@ impl Check for C17 {
     fn cases(&self, tier: Tier) -> u64 {
         match tier {
             Tier::Quick => 30_000,
-            Tier::Thorough => 100_000,
+            Tier::Thorough => 400_000,
         }
     }
     fn langs(&self) -> Vec<&'static str> {
